@@ -34,6 +34,11 @@ pub fn doc_of(c: &Value) -> Option<(Value, Vec<String>)> {
     if uniq.len() != names.len() {
         return None; // JSON object keys / enum values are distinct
     }
+    // a union needs two alternatives: a lone name gets a benign companion
+    let mut names = names;
+    if matches!(usage, "variant" | "adj" | "tag") && names.len() == 1 && names[0] != "zz_other" {
+        names.push("zz_other".to_string());
+    }
     let doc = match usage {
         "prop" => {
             // the property's schema and requiredness vary with `ptype`: every serde
@@ -75,13 +80,47 @@ pub fn doc_of(c: &Value) -> Option<(Value, Vec<String>)> {
             json!({"definitions": defs})
         }
         "variant" => {
+            // externally tagged: the name is the single property key; the payload shape of the
+            // first variant varies with `ptype` (every variant-emission path sees every name)
             let vs: Vec<Value> = names
                 .iter()
                 .enumerate()
                 .map(|(i, n)| {
                     let mut p = Map::new();
-                    p.insert(n.clone(), if i % 2 == 0 { json!({"type": "integer"}) } else { json!({"type": "string"}) });
+                    p.insert(n.clone(), if i == 0 { payload_schema(c["ptype"].as_u64().unwrap_or(0)) } else if i % 2 == 0 { json!({"type": "integer"}) } else { json!({"type": "string"}) });
                     json!({"type": "object", "properties": p, "required": [n], "additionalProperties": false})
+                })
+                .collect();
+            if c["ptype"].as_u64().unwrap_or(0) >= VTYPES {
+                return None;
+            }
+            json!({"definitions": {"Holder": {"oneOf": vs}}})
+        }
+        "adj" => {
+            // adjacently tagged: the name is the constant of the tag property
+            let vs: Vec<Value> = names
+                .iter()
+                .enumerate()
+                .map(|(i, n)| {
+                    let content = if i == 0 { payload_schema(c["ptype"].as_u64().unwrap_or(0)) } else if i % 2 == 0 { json!({"type": "integer"}) } else { json!({"type": "string"}) };
+                    json!({"type": "object", "properties": {"tag": {"type": "string", "enum": [n]}, "content": content}, "required": ["tag", "content"]})
+                })
+                .collect();
+            if c["ptype"].as_u64().unwrap_or(0) >= VTYPES {
+                return None;
+            }
+            json!({"definitions": {"Holder": {"oneOf": vs}}})
+        }
+        "tag" => {
+            // internally tagged: the name is the constant of the tag property
+            let vs: Vec<Value> = names
+                .iter()
+                .enumerate()
+                .map(|(i, n)| {
+                    let mut p = Map::new();
+                    p.insert("kind".into(), json!({"type": "string", "enum": [n]}));
+                    p.insert(format!("f{i}"), json!({"type": "integer"}));
+                    json!({"type": "object", "properties": p, "required": ["kind"]})
                 })
                 .collect();
             json!({"definitions": {"Holder": {"oneOf": vs}}})
@@ -91,8 +130,74 @@ pub fn doc_of(c: &Value) -> Option<(Value, Vec<String>)> {
     Some((doc, names))
 }
 
+pub const VTYPES: u64 = 6;
+
+/// payload of a union variant: scalar, one-element tuple, pair, struct, array, string
+fn payload_schema(k: u64) -> Value {
+    match k {
+        1 => json!({"type": "array", "items": [{"type": "number"}], "minItems": 1, "maxItems": 1}),
+        2 => json!({"type": "array", "items": [{"type": "integer"}, {"type": "string"}], "minItems": 2, "maxItems": 2}),
+        3 => json!({"type": "object", "properties": {"x": {"type": "integer"}}, "required": ["x"]}),
+        4 => json!({"type": "array", "items": {"type": "integer"}}),
+        5 => json!({"type": "string"}),
+        _ => json!({"type": "integer"}),
+    }
+}
+
+fn payload_value(k: u64) -> Value {
+    match k {
+        1 => json!([1.5]),
+        2 => json!([3, "s"]),
+        3 => json!({"x": 4}),
+        4 => json!([1, 2]),
+        5 => json!("str"),
+        _ => json!(5),
+    }
+}
+
 fn is_plain_ident(s: &str, pascal: bool) -> bool {
     sanitize_like(s, pascal) == s
+}
+
+fn gen_single(g: &mut G) -> Value {
+    let u = *g.pick(&["prop", "enum", "def", "variant", "variant"]);
+    let n = if g.chance(1, 2) { odd_name(g) } else { odd_string(g, 24) };
+    if u == "prop" {
+        prop_case(&[n], g.u64() % PTYPES)
+    } else if u == "variant" {
+        variant_case(u, &[n], g.u64() % VTYPES)
+    } else {
+        case_of(u, &[n])
+    }
+}
+
+fn variant_case(u: &str, names: &[String], ptype: u64) -> Value {
+    json!({"use": u, "names": names, "ptype": ptype})
+}
+
+fn gen_group(g: &mut G) -> Value {
+    let u = *g.pick(&["prop", "enum", "def", "variant", "adj", "tag"]);
+    let (a, b) = if g.chance(2, 3) { colliding_pair(g) } else { (odd_name(g), odd_name(g)) };
+    // colliding names next to each other, or separated by an unrelated name
+    let names = if a == b {
+        vec![a]
+    } else if g.chance(1, 3) {
+        let filler = g.pick(&["go", "middle", "zz9"]).to_string();
+        if filler == a || filler == b {
+            vec![a, b]
+        } else {
+            vec![a, filler, b]
+        }
+    } else {
+        vec![a, b]
+    };
+    if u == "prop" {
+        prop_case(&names, g.u64() % PTYPES)
+    } else if u == "variant" || u == "adj" {
+        variant_case(u, &names, g.u64() % VTYPES)
+    } else {
+        case_of(u, &names)
+    }
 }
 
 impl Property for C08 {
@@ -110,6 +215,9 @@ impl Property for C08 {
     }
     fn chunk(&self) -> usize {
         50000
+    }
+    fn fuzz_gen(&self, g: &mut G) -> Option<Value> {
+        Some(if g.chance(1, 3) { gen_single(g) } else { gen_group(g) })
     }
     fn generate(&self, tier: Tier, seed: u64) -> Vec<Value> {
         let mut names: Vec<String> = exhaustive(tier.pick(3, 4));
@@ -137,42 +245,17 @@ impl Property for C08 {
                     for t in 0..PTYPES {
                         out.push(prop_case(&[n.clone()], t));
                     }
+                } else if u == "variant" {
+                    for t in 0..VTYPES {
+                        out.push(variant_case(u, &[n.clone()], t));
+                    }
                 } else {
                     out.push(case_of(u, &[n.clone()]));
                 }
             }
         }
-        out.extend(gen::draw(seed, "C08-rand", tier.pick(3000, 150000), move |g: &mut G| {
-            let u = *g.pick(&["prop", "enum", "def", "variant"]);
-            let n = if g.chance(1, 2) { odd_name(g) } else { odd_string(g, 24) };
-            if u == "prop" {
-                prop_case(&[n], g.u64() % PTYPES)
-            } else {
-                case_of(u, &[n])
-            }
-        }));
-        out.extend(gen::draw(seed, "C08-pairs", tier.pick(2500, 60000), move |g: &mut G| {
-            let u = *g.pick(&["prop", "enum", "def", "variant"]);
-            let (a, b) = if g.chance(2, 3) { colliding_pair(g) } else { (odd_name(g), odd_name(g)) };
-            // colliding names next to each other, or separated by an unrelated name
-            let names = if a == b {
-                vec![a]
-            } else if g.chance(1, 3) {
-                let filler = g.pick(&["go", "middle", "zz9"]).to_string();
-                if filler == a || filler == b {
-                    vec![a, b]
-                } else {
-                    vec![a, filler, b]
-                }
-            } else {
-                vec![a, b]
-            };
-            if u == "prop" {
-                prop_case(&names, g.u64() % PTYPES)
-            } else {
-                case_of(u, &names)
-            }
-        }));
+        out.extend(gen::draw(seed, "C08-rand", tier.pick(3000, 150000), gen_single));
+        out.extend(gen::draw(seed, "C08-pairs", tier.pick(2500, 60000), gen_group));
         // dynamic half: a deterministic sample is compiled and an instance keyed by the
         // original names is round-tripped through the generated type
         let every = (out.len() / tier.pick(160, 3000)).max(1);
@@ -222,7 +305,7 @@ impl Property for C08 {
                     unit.violations.push(Violation::new("wire-name-mismatch", format!("properties {:?} are bound to serde names {:?}", want, got)));
                 }
             }
-            "enum" | "variant" => {
+            "enum" | "variant" | "adj" | "tag" => {
                 let Some(item) = r.index.items.get("Holder") else {
                     unit.violations.push(Violation::new("item-missing", "no item Holder".to_string()));
                     return unit;
@@ -290,11 +373,13 @@ impl Property for C08 {
                 }
                 "enum" => Some(json!(names[names.len() - 1])),
                 "variant" => {
-                    let i = names.len() - 1;
+                    let i = if c["ptype"].as_u64().unwrap_or(0) > 0 { 0 } else { names.len() - 1 };
                     let mut m = Map::new();
-                    m.insert(names[i].clone(), if i % 2 == 0 { json!(5) } else { json!("x") });
+                    m.insert(names[i].clone(), if i == 0 { payload_value(c["ptype"].as_u64().unwrap_or(0)) } else if i % 2 == 0 { json!(5) } else { json!("x") });
                     Some(Value::Object(m))
                 }
+                "adj" => Some(json!({"tag": names[0], "content": payload_value(c["ptype"].as_u64().unwrap_or(0))})),
+                "tag" => Some(json!({"kind": names[names.len() - 1], format!("f{}", names.len() - 1): 9})),
                 _ => None,
             };
             if let Some(inst) = inst {
